@@ -221,6 +221,16 @@ func runExtraOps(em *emitter, dir, wdir string, c Case, conc *world.Conc, cseed 
 				em.emit(diffEvent{Ev: "Diff", Dir: "rev", Obs: r})
 			}
 		}
+		if c.Chain && gs.baseDir != "" && gs.n >= gs.baseN+2 && c.ID%2 == 0 {
+			// several edits apart: against the first world of the behaviour
+			if c.ID%4 == 0 {
+				d, _ := run.Diff(gs.baseDir, wdir, w, conc, false, "")
+				em.emit(diffEvent{Ev: "Diff", Dir: "base", Obs: d})
+			} else {
+				d, _ := run.Diff(wdir, gs.baseDir, w, conc, false, "")
+				em.emit(diffEvent{Ev: "Diff", Dir: "baserev", Obs: d})
+			}
+		}
 		if c.ID%5 == 0 {
 			s, _ := run.Diff(wdir, wdir, w, conc, false, "")
 			em.emit(diffEvent{Ev: "Diff", Dir: "self", Obs: s})
